@@ -4,7 +4,7 @@ import json
 from mc import strictjson
 import sys
 
-from mc import core, pelgen, decode, impl, imphook
+from mc import subchunk, core, pelgen, decode, impl, imphook
 from mc.core import ChunkResult
 from mc.ref import hexdump as rhex
 
@@ -54,6 +54,8 @@ def plan(tier, seed):
     for b0 in range(5):
         for b1 in range(5):
             ch.append({'k': 'contain', 'b0': b0, 'b1': b1})
+    # the same under python -O (assertions stripped, __debug__ false)
+    ch += [dict(c, optimize=True) for c in [{'k': 'src'}, {'k': 'osrc'}, {'k': 'm2c00'}, {'k': 'dispatch', 'creators': NAME_CREATORS[:8], 'plugins': True}]]
     return ch
 
 
@@ -420,6 +422,9 @@ def _do(res, case, step=499):
 
 
 def run_chunk(chunk):
+    routed = subchunk.route(__name__, chunk)
+    if routed is not None:
+        return routed
     res = ChunkResult()
     k = chunk['k']
     if k == 'dispatch':
